@@ -121,4 +121,64 @@ theorem allValid_getVcs : ∀ a, allValid (getVcsH a) → allValid (getVcs a) :=
     simp only [getVcsH, getVcs, allValid_append] at h ⊢
     exact ⟨⟨allValid_addVc _ h.1.1, ih h.1.2⟩, allValid_addVc _ h.2⟩
 
+/-! ### the `== true` shortcut is meaning-preserving; partial correctness only -/
+
+theorem holds_mkVc_iff (a b : Expr) (s : State) : holds s (mkVc a b) ↔ holds s (implies a b) := by
+  unfold mkVc
+  split
+  · rename_i e; subst e
+    constructor
+    · intro h; unfold holds implies etrue at *; simp [evalE, h, evalBin]
+    · intro h; exact holds_implies h rfl
+  · exact Iff.rfl
+
+theorem allValid_addVcH : ∀ l, allValid (addVc l) → allValid (addVcH l) := by
+  intro l
+  induction l with
+  | nil => intro _; simp [addVcH, allValid]
+  | cons a t ih =>
+    cases t with
+    | nil => intro _; simp [addVcH, allValid]
+    | cons b rest =>
+      intro h
+      have h1 : valid (mkVc a b) := h _ (by simp [addVc])
+      have h2 : allValid (addVc (b :: rest)) := fun v hv => h v (by simp [addVc]; exact Or.inr hv)
+      intro v hv
+      simp only [addVcH, List.mem_cons] at hv
+      rcases hv with rfl | hv
+      · exact fun s => (holds_mkVc_iff a b s).mp (h1 s)
+      · exact ih h2 v hv
+
+theorem allValid_getVcsH : ∀ a, allValid (getVcs a) → allValid (getVcsH a) := by
+  intro a
+  induction a with
+  | skip pre post => exact allValid_addVcH pre
+  | assign pre post x e => exact allValid_addVcH pre
+  | seq pre post a1 a2 ih1 ih2 =>
+    intro h
+    simp only [getVcsH, getVcs, allValid_append] at h ⊢
+    exact ⟨⟨allValid_addVcH _ h.1.1, ih1 h.1.2⟩, ih2 h.2⟩
+  | cond pre post b a1 a2 ih1 ih2 =>
+    intro h
+    simp only [getVcsH, getVcs, allValid_append] at h ⊢
+    exact ⟨⟨allValid_addVcH _ h.1.1, ih1 h.1.2⟩, ih2 h.2⟩
+  | «while» pre post b inv a ih =>
+    intro h
+    simp only [getVcsH, getVcs, allValid_append] at h ⊢
+    exact ⟨⟨allValid_addVcH _ h.1.1, ih h.1.2⟩, allValid_addVcH _ h.2⟩
+
+theorem no_exec_loop (inv : Expr) : ∀ s s', ¬ Exec (.while (.bool true) inv .skip) s s' := by
+  intro s s' h
+  have key : ∀ w s s', Exec w s s' → w = .while (.bool true) inv .skip → False := by
+    intro w s s' hex
+    induction hex with
+    | skip => intro e; cases e
+    | assign => intro e; cases e
+    | seq => intro e; cases e
+    | condT => intro e; cases e
+    | condF => intro e; cases e
+    | whileF hb => intro e; cases e; simp [evalE] at hb
+    | whileT _ _ _ _ ih2 => intro e; exact ih2 e
+  exact key _ _ _ h rfl
+
 end Holpy.C20
